@@ -13,7 +13,9 @@ MAGIC = {"gzip": b"\x1f\x8b", "bz2": b"BZh", "lz4": b"\x04\x22\x4d\x18", "zstd":
 EXT = {"none": "", "gzip": ".gz", "bz2": ".bz2", "lz4": ".lz4", "zstd": ".zstd"}
 HEADER_FRAME = b"\x00\x00\x00\x0f\xc4\x0dRECORDSTREAM\n"
 JUNK = {"empty": b"", "html": b"<html><body>not records</body></html>", "zeros": b"\x00" * 64, "magic at offset 0 then junk": b"RECORDSTREAM\n" + b"\x01" * 40, "text mentioning the magic": b"see RECORDSTREAM\nin line 2 of this text file",
-        "magic after 30 bytes": b"\x00" * 30 + HEADER_FRAME, "truncated header": HEADER_FRAME[:10], "prefix of the gzip magic": b"\x1f", "record text": b"<c11/rec n=1 s='a'>\n"}
+        "magic after 30 bytes": b"\x00" * 30 + HEADER_FRAME, "truncated header": HEADER_FRAME[:10], "prefix of the gzip magic": b"\x1f", "record text": b"<c11/rec n=1 s='a'>\n",
+        "JSON lines": b'{"n": 1, "s": "a"}\n{"n": 2, "s": "b"}\n', "JSON lines of the JSON adapter": b'{"_type": "recorddescriptor", "_data": ["c11/rec", [["varint", "n"]]]}\n{"n": 1, "_type": "record", "_recorddescriptor": ["c11/rec", 1]}\n',
+        "CSV text": b"n,s\r\n1,a\r\n"}
 
 
 def _decompress(codec, data):
@@ -154,6 +156,37 @@ def c11_concurrent(ext=".zst"):
             return {"violates": True, "detail": f"two {ext} streams in progress at once: {type(e).__name__}: {e}"[:300]}
     ok = got == [list(range(300)), list(range(1000, 1300))]
     return {"violates": not ok, "detail": None if ok else "records of two streams written / read side by side are mixed up or lost"}
+
+
+def c11_clobber(codec="gzip", ext=".gz"):
+    from flow.record import RecordDescriptor, RecordReader, RecordWriter
+
+    D = RecordDescriptor("c11/rec", [("varint", "n")])
+    with tempfile.TemporaryDirectory() as td:
+        p = os.path.join(td, "new.records" + ext)
+        w = RecordWriter(p, clobber=False)
+        w.write(D(n=5))
+        w.close()
+        data = open(p, "rb").read()
+        bad = None
+        if codec != "none" and not data.startswith(MAGIC[codec]):
+            bad = f"clobber=False: the new file starts with {data[:4]!r}, not with the {codec} magic its extension promises"
+        elif codec == "none" and any(data.startswith(m) for m in MAGIC.values()):
+            bad = "a path without a codec extension was compressed"
+        else:
+            try:
+                back = [r.n for r in RecordReader(p)]
+                if back != [5]:
+                    bad = f"read back {back}"
+            except Exception as e:
+                bad = f"{type(e).__name__}: {e}"
+        if not bad:
+            try:
+                RecordWriter(p, clobber=False).close()
+                bad = "an existing file was opened for writing with clobber=False"
+            except Exception:
+                pass
+    return {"violates": bool(bad), "detail": bad}
 
 
 def c11_hash_name():
@@ -303,4 +336,4 @@ def c11_model_conformance():
     return {"ok": True, "cases": 4, "violates": False}
 
 
-CALLS = {"c11_hash_name": c11_hash_name, "c11_concurrent": c11_concurrent, "c11_matrix": c11_matrix, "c11_adapters": c11_adapters, "c11_refuse": c11_refuse, "c11_sweep": c11_sweep, "c11_model_conformance": c11_model_conformance}
+CALLS = {"c11_clobber": c11_clobber, "c11_hash_name": c11_hash_name, "c11_concurrent": c11_concurrent, "c11_matrix": c11_matrix, "c11_adapters": c11_adapters, "c11_refuse": c11_refuse, "c11_sweep": c11_sweep, "c11_model_conformance": c11_model_conformance}
